@@ -2,6 +2,7 @@
   C14 — Each file has at most one producing step.
 -/
 import N2V.Model.Load
+import N2V.Lemmas.LoadInv
 namespace N2V.C14
 open N2V N2V.Load
 
@@ -167,5 +168,33 @@ example :
         | _ => false)
      | _ => false) = true := by
   simp [addBuild, claimOuts, g0, b0, b1, modFile]
+
+/-- **At most one producing step, for every loaded manifest.**  Whatever the file system holds and
+    however `include` / `subninja` nest: in the graph a successful load returns, an output listed by
+    two build statements is listed by the same statement; a file's recorded producer lists that file;
+    every output's recorded producer is the statement listing it; no statement lists an output twice
+    (a repeated output is kept once); and no two graph nodes carry the same name. -/
+theorem at_most_one_producer (fs : Fs) (main : Bytes) (l : Loader) (h : load fs main = .ok l) :
+    (∀ (p q : Nat) (bp bq : BuildM) (o : Nat), l.graph.builds[p]? = some bp → l.graph.builds[q]? = some bq →
+        o ∈ bp.outs → o ∈ bq.outs → p = q) ∧
+    (∀ (f : Nat) (fm : FileM) (p : Nat), l.graph.files[f]? = some fm → fm.input = some p →
+        ∃ bm : BuildM, l.graph.builds[p]? = some bm ∧ f ∈ bm.outs) ∧
+    (∀ (p : Nat) (bm : BuildM), l.graph.builds[p]? = some bm → ∀ o ∈ bm.outs,
+        ∃ fm : FileM, l.graph.files[o]? = some fm ∧ fm.input = some p) ∧
+    (∀ (p : Nat) (bm : BuildM), l.graph.builds[p]? = some bm → bm.outs.Nodup) ∧
+    (∀ (i j : Nat) (fi fj : FileM), l.graph.files[i]? = some fi → l.graph.files[j]? = some fj →
+        fi.name = fj.name → i = j) := by
+  have inv := load_inv false fs main l h
+  exact ⟨fun p q bp bq o => inv.unique_producer p q bp bq o, inv.prod, inv.outs, inv.nodup, inv.names⟩
+
+/-- One statement entering the graph keeps all of that (the step the load theorem iterates). -/
+theorem add_build_keeps_one_producer (g : GraphM) (b : BuildM) (g' : GraphM) (w : Nat) (inv : GInv g)
+    (hins : ∀ i ∈ b.ins, i < g.files.length) (h : addBuild g b = .ok (g', w)) : GInv g' :=
+  (addBuild_inv g b g' w inv hins h).1
+
+/-- Non-vacuity: the graph after `build a b: r` satisfies the invariant and has a producer. -/
+example : ∃ g1 w, addBuild g0 b0 = .ok (g1, w) ∧ g1.files[0]? = some ⟨[97], some 0, []⟩ := by
+  refine ⟨_, _, by simp [addBuild, claimOuts, g0, b0, modFile]; exact ⟨rfl, rfl⟩, ?_⟩
+  simp
 
 end N2V.C14
